@@ -8,7 +8,7 @@ from .. import core
 from ..core import SKIP
 
 ID = "C09"
-RULE = ("(v8: + bedGraph files whose value column is spelled every way a float can be written ('.5', '5.', '+.5', '00.5', '5e0', '.5e1', '1e19', signs) at any row, read in memory and streamed; write -> read round trip of get_data() through a file (float / int tracks, masks; fractions, whole numbers, whole numbers past 2**63 / 2**64); genomes with more than 256 chromosomes through get_track / from_dict / t[intervals] / files / expression trees; v7: + two genomes over the same chromosomes in the same / another order (equal-length chromosomes swapped): binary ops "
+RULE = ("(v9: + interval sets in any order within a chromosome x integer type of the position columns (uint8..uint64, int8..int64) x route to the mask / pileup (per-contig functions, Genome.get_intervals in memory, streamed contig by contig); every Genome construction route (constructor / from_dict / from_file, sort_names on/off, filter given or defaulted) over contig names with underscores, dots, bare numbers; a sample of track / geo_track / gi_seq / extract / from_dict / expr cases with narrow or unsigned position columns; v8: + bedGraph files whose value column is spelled every way a float can be written ('.5', '5.', '+.5', '00.5', '5e0', '.5e1', '1e19', signs) at any row, read in memory and streamed; write -> read round trip of get_data() through a file (float / int tracks, masks; fractions, whole numbers, whole numbers past 2**63 / 2**64); genomes with more than 256 chromosomes through get_track / from_dict / t[intervals] / files / expression trees; v7: + two genomes over the same chromosomes in the same / another order (equal-length chromosomes swapped): binary ops "
         "and boolean indexing across them, tables with a chromosome column encoded by the other genome - refused or right by "
         "chromosome name; v6: + genomes past 2^31 / 2^32 / 2^33 bases (sparse observations), narrow value dtypes (uint8, int8, int16, float16, float32) "
         "with python and NumPy scalar operands on either side, dtype and values compared with dense NumPy; v5: + arrays must not follow later in-place edits of their input tables nor of the arrays/records they handed out "
@@ -235,6 +235,45 @@ def _many_chrom_cases(rng, big):
         yield {"op": "expr", "sizes": sizes, "leaves": lv, "tree": {"t": "bin", "f": "add", "a": P, "b": T}, "red": "sum", "idx": M}
 
 
+_DTS = ["uint8", "uint16", "uint32", "uint64", "int8", "int16", "int32"]
+_USNAMES = ["scaffold_10", "chr2", "scaffold_2", "chr1", "NC_000913.3", "chr1_KI270706v1_random", "chrM", "chrUn_GL000195v1", "10", "2", "X"]
+
+
+def _route_cases(rng, big):
+    """interval sets given in ANY order within a chromosome, position columns of every integer type, through every route to a
+    mask / pileup: the per-contig functions, Genome.get_intervals in memory, and the same intervals streamed contig by contig"""
+    for _ in range(1500 if big else 250):
+        sizes = [rng.choice([3, 6, 12, 50]) for _ in range(rng.choice([1, 2, 3]))]
+        recs = []
+        for cidx, sz in enumerate(sizes):
+            rows = []
+            for _k in range(rng.choice([0, 1, 2, 3, 5])):
+                a = rng.randrange(sz)
+                rows.append([cidx, a, rng.randrange(a + 1, sz + 1), 1])
+            how = rng.choice(["shuffled", "shuffled", "sorted", "reversed"])
+            rows.sort()
+            if how == "shuffled":
+                rng.shuffle(rows)
+            elif how == "reversed":
+                rows.reverse()
+            recs += rows
+        yield {"op": "mask_routes", "sizes": sizes, "recs": recs, "dt": rng.choice(_DTS + ["int64"])}
+
+
+def _genome_opt_cases(rng, big):
+    """every way to make a Genome (constructor / from_dict / from_file, sort_names on and off, the keep-everything filter given
+    or defaulted) over contig names with underscores, dots and bare numbers: all contigs must be there, in the promised order"""
+    for _ in range(600 if big else 120):
+        names = rng.sample(_USNAMES, rng.choice([2, 3, 4, 5]))
+        sizes = [rng.choice([4, 5, 8, 12]) for _ in names]
+        how = rng.choice(["init", "from_dict", "from_file", "init_filter", "from_dict_filter"])
+        recs = []
+        for i, sz in enumerate(sizes):
+            pts = sorted(rng.sample(range(sz + 1), 2 * rng.randrange(0, 3)))
+            recs += [[i, a, b, rng.choice([1, 2, 5, 7])] for a, b in zip(pts[0::2], pts[1::2])]
+        yield {"op": "genome_opts", "names": names, "sizes": sizes, "how": how, "sort_names": rng.random() < 0.6, "recs": recs}
+
+
 BIN_I = ["add", "sub", "mul"]
 CMP = ["lt", "gt", "eq"]
 BIN_B = ["and", "or"]
@@ -271,6 +310,17 @@ def _depth(t):
 
 
 def cases(tier, rng):
+    """the base cases, and for a sample of the table-taking ones the same case with the start / stop columns of the input
+    tables in another integer type (uint8..uint64, int8..int32; twice the genome size fits the type)"""
+    for c in _base_cases(tier, rng):
+        yield c
+        if c["op"] in ("track", "geo_track", "gi_seq", "extract", "track_from_dict", "expr") and "sizes" in c and rng.random() < 0.12:
+            pool = [d for d in _DTS if np.iinfo(d).max >= 2 * sum(c["sizes"]) + 2]
+            if pool:
+                yield dict(c, dt=rng.choice(pool))
+
+
+def _base_cases(tier, rng):
     big = tier in ("thorough", "widen")
     S = 7 if big else 5
     # 1. the raw classmethods on one contig: every bedGraph shape
@@ -436,6 +486,9 @@ def cases(tier, rng):
         else:
             recs = _rand_ivs(rng, sizes)
         yield {"op": "track_rt", "sizes": sizes, "recs": recs, "kind": kind}
+    # 2i. intervals in any order x integer type of the columns x route to the mask / pileup; Genome construction switches x odd names
+    yield from _route_cases(rng, big)
+    yield from _genome_opt_cases(rng, big)
     # 3. random larger tracks and expression trees
     N = 3000 if big else 500
     D = 4 if big else 3
@@ -531,6 +584,10 @@ def nontrivial(c):
         return len(c["recs"]) >= 2 and any(not r[3][:1].isdigit() or r[3].endswith(".") or "e" in r[3] for r in c["recs"][1:])
     if op == "track_rt":
         return len(c["recs"]) >= 1
+    if op == "mask_routes":
+        return len(c["recs"]) >= 2
+    if op == "genome_opts":
+        return any("_" in n for n in c["names"]) or c["sort_names"]
     if op in ("track", "geo_track", "track_str", "track_from_dict", "track_file"):
         return len(c["sizes"]) >= 2 or len(c["recs"]) >= 2
     return _depth(c["tree"]) >= 2 or bool(c.get("ignored")) or len(c["sizes"]) > 256
@@ -539,6 +596,7 @@ def nontrivial(c):
 # ------------------------------------------------------------------ implementation
 
 _SNAP = []
+_DT = [int]        # integer type of the start / stop columns of the tables handed to the package (case key "dt")
 
 
 def _snap(x):
@@ -569,7 +627,7 @@ def _bg0(recs, kind, names=None):
     m = _mods()
     ch = [("chr%d" % (r[0] + 1)) for r in recs] if names is None else [names] * len(recs)
     o = 1 if names is None else 0
-    return m["BedGraph"](ch, np.array([r[o] for r in recs], dtype=int), np.array([r[o + 1] for r in recs], dtype=int),
+    return m["BedGraph"](ch, np.array([r[o] for r in recs], dtype=_DT[0]), np.array([r[o + 1] for r in recs], dtype=_DT[0]),
                          _vals(kind, [r[o + 2] for r in recs]))
 
 
@@ -661,7 +719,11 @@ def impl(c):
     """the observation of the real calls; if a call changed one of the tables handed to it (start / stop / value columns
     compared byte for byte with a copy taken before) that is reported as well"""
     del _SNAP[:]
-    out = _impl_raw(c)
+    _DT[0] = np.dtype(c["dt"]) if "dt" in c else int
+    try:
+        out = _impl_raw(c)
+    finally:
+        _DT[0] = int
     mut = _mutated() if c["op"] not in ("alias",) else []
     del _SNAP[:]
     if mut and isinstance(out, dict):
@@ -671,8 +733,8 @@ def impl(c):
 
 def _ivtab(rows):
     m = _mods()
-    return _snap(m["Interval"](["chr%d" % (x[0] + 1) for x in rows], np.array([x[1] for x in rows], dtype=int),
-                               np.array([x[2] for x in rows], dtype=int)))
+    return _snap(m["Interval"](["chr%d" % (x[0] + 1) for x in rows], np.array([x[1] for x in rows], dtype=_DT[0]),
+                               np.array([x[2] for x in rows], dtype=_DT[0])))
 
 
 def _obs_arr(t, sizes):
@@ -968,6 +1030,56 @@ def _impl_raw(c):
             d = m["bnp"].compute((genome.read_track(fn, stream=True) > k).get_data())
             out["where"] = [[names.index(n), int(a), int(b)] for n, a, b in zip(d.chromosome.tolist(), d.start.tolist(), d.stop.tolist())]
             return out
+        if op == "mask_routes":
+            from bionumpy.arithmetics import get_boolean_mask, get_pileup
+            sizes = c["sizes"]
+            names = list(_sizes_dict(sizes))
+            genome = m["bnp"].Genome.from_dict(_sizes_dict(sizes))
+            per = [[r for r in c["recs"] if r[0] == i] for i in range(len(sizes))]
+            out = {"contig_mask": [[int(v) for v in get_boolean_mask(_ivtab(rs), sz).to_array().tolist()] for rs, sz in zip(per, sizes)],
+                   "contig_pileup": [[int(v) for v in get_pileup(_ivtab(rs), sz).to_array().tolist()] for rs, sz in zip(per, sizes)]}
+            gi = genome.get_intervals(_ivtab(c["recs"]))
+            dm, dp = gi.get_mask().to_dict(), gi.get_pileup().to_dict()
+            out["mask"] = [[int(v) for v in dm[n].tolist()] for n in names]
+            out["pileup"] = [[int(v) for v in dp[n].tolist()] for n in names]
+            d = genome.get_intervals(_ivtab(c["recs"])).as_stream().get_mask().get_data().compute()
+            out["streamed"] = [[names.index(n), int(a), int(b)] for n, a, b in zip(d.chromosome.tolist(), d.start.tolist(), d.stop.tolist())]
+            return out
+        if op == "genome_opts":
+            names, szs, how, sn = c["names"], c["sizes"], c["how"], c["sort_names"]
+            d = dict(zip(names, szs))
+            G = m["bnp"].Genome
+            keep = lambda x: True
+            if how == "init":
+                genome = G(d, sort_names=sn)
+            elif how == "init_filter":
+                genome = G(d, sort_names=sn, filter_function=keep)
+            elif how == "from_dict":
+                genome = G.from_dict(d, sort_names=sn)
+            elif how == "from_dict_filter":
+                genome = G.from_dict(d, sort_names=sn, filter_function=keep)
+            else:
+                import os, tempfile, atexit, shutil
+                if not _TMP:
+                    _TMP.append(tempfile.mkdtemp(prefix="c09-"))
+                    atexit.register(shutil.rmtree, _TMP[0], True)
+                fn = os.path.join(_TMP[0], "o%d.chrom.sizes" % os.getpid())
+                with open(fn, "w") as fh:
+                    fh.write("".join("%s\t%d\n" % kv for kv in d.items()))
+                genome = G.from_file(fn, sort_names=sn, filter_function=keep)
+            order = sorted(range(len(names)), key=lambda i: names[i]) if sn else list(range(len(names)))
+            rs = sorted(c["recs"], key=lambda r: (order.index(r[0]), r[1]))
+            bgt = _snap(m["BedGraph"]([names[r[0]] for r in rs], np.array([r[1] for r in rs], dtype=int),
+                                      np.array([r[2] for r in rs], dtype=int), np.array([r[3] for r in rs], dtype=int)))
+            t = genome.get_track(bgt)
+            dd = t.to_dict()
+            data = t.get_data()
+            mk = genome.get_intervals(_snap(m["Interval"]([names[r[0]] for r in rs], np.array([r[1] for r in rs], dtype=int),
+                                                          np.array([r[2] for r in rs], dtype=int)))).get_mask().to_dict() if rs else None
+            return {"order": list(dd.keys()), "gsize": int(genome.size), "ctx": [[k, int(v)] for k, v in genome.get_genome_context().chrom_sizes.items()],
+                    "dict": {n: [int(v) for v in dd[n].tolist()] for n in dd}, "sum": int(np.sum(t)),
+                    "data": [[n, int(a), int(b), int(v)] for n, a, b, v in zip(data.chromosome.tolist(), data.start.tolist(), data.stop.tolist(), data.value.tolist())],
+                    "mask": None if mk is None else {n: [int(v) for v in mk[n].tolist()] for n in mk}}
         if op in ("track_file_f", "track_rt"):
             import os, tempfile, atexit, shutil
             if not _TMP:
@@ -1216,6 +1328,24 @@ def oracle(c):
                "hist": [int(v) for v in np.histogram(g, bins=[-10, 0, 1, 3, 10])[0].tolist()], "dense_k": [(d * k).tolist() for d in dense],
                "gt_k": [(d > k).astype(int).tolist() for d in dense]}
         return out
+    if op == "mask_routes":
+        sizes = c["sizes"]
+        pile = [[sum(1 for r in c["recs"] if r[0] == i and r[1] <= p < r[2]) for p in range(sz)] for i, sz in enumerate(sizes)]
+        mask = [[int(v > 0) for v in row] for row in pile]
+        return {"contig_mask": mask, "contig_pileup": pile, "mask": mask, "pileup": pile}
+    if op == "genome_opts":
+        names, szs = c["names"], c["sizes"]
+        order = sorted(range(len(names)), key=lambda i: names[i]) if c["sort_names"] else list(range(len(names)))
+        dense = {}
+        for i in order:
+            a = [0] * szs[i]
+            for r in c["recs"]:
+                if r[0] == i:
+                    a[r[1]:r[2]] = [r[3]] * (r[2] - r[1])
+            dense[names[i]] = a
+        return {"order": [names[i] for i in order], "gsize": sum(szs), "ctx": [[names[i], szs[i]] for i in order], "dict": dense,
+                "sum": sum(sum(a) for a in dense.values()),
+                "mask": {n: [int(v != 0) for v in a] for n, a in dense.items()} if c["recs"] else None}
     if op == "track_file_f":
         sizes = c["sizes"]
         per = _split(sizes, c["recs"])
@@ -1341,6 +1471,15 @@ def agree(c, got, exp):
         return got["dense"] == exp["dense"] and got["bedgraph"] == exp["bedgraph"]
     if op == "extract":
         return core.canon(got) == core.canon(exp)
+    if op == "mask_routes":
+        if any(got[k] != exp[k] for k in exp):
+            return False
+        return _records_ok(got["streamed"], exp["mask"], True)
+    if op == "genome_opts":
+        if any(got[k] != exp[k] for k in exp):
+            return False
+        names = exp["order"]
+        return _records_ok([[names.index(r[0])] + r[1:] for r in got["data"]], [exp["dict"][n] for n in names], False)
     if op == "track_file_f":
         if got["mem"] != exp["mem"]:
             return False
